@@ -726,6 +726,11 @@ THEOREMS_SPEC = [
     "ProbLogProofs.C01GroundFO.toSemRules_eq",
     "ProbLogProofs.C01GroundFO.C01_groundFO_correct_example",
 ]
+MODULE_TRUTH = "ProbLogProofs.Properties.C01GroundFOTruth"
+THEOREMS_TRUTH = [
+    "ProbLogProofs.C01GroundFO.C01_groundFO_truth_spec",
+    "ProbLogProofs.C01GroundFO.C01_groundFO_ground_engine_on_instantiation",
+]
 MODULE_INLINE = "ProbLogProofs.Properties.C01GroundInline"
 THEOREMS_INLINE = [
     "ProbLogProofs.C01Ground.C01_ground_inline_same_truth",
@@ -834,6 +839,7 @@ def semantic_check(ctx, sdrv, items, reals, kind, rng):
     schedule and under an arbitrary one."""
     if kind == "all":
         ctx.proof_phase(MODULE_SPEC, THEOREMS_SPEC)
+        ctx.proof_phase(MODULE_TRUTH, THEOREMS_TRUTH)
     cdrv = ctx.driver("Drivers.GroundFOCheck")
     if cdrv is None:
         return
